@@ -172,7 +172,7 @@ class FnResult:
 def run_contract(repo, c: FnContract) -> FnResult:
     """Symbolically execute the real function against its contract; returns the obligations (not yet discharged)."""
     try:
-        node, _src = find_function(repo, c.file, c.qual)
+        node, _src = find_function(getattr(c, "repo_root", None) or repo, c.file, c.qual)
     except Unsupported as e:
         return FnResult(c, [], [], unsupported=str(e))
     m = c.model() if callable(c.model) else c.model
@@ -182,6 +182,8 @@ def run_contract(repo, c: FnContract) -> FnResult:
     eng.contract = c
     pre = list(c.requires(m))
     st = State(env=dict(c.params(m)), hyps=list(pre), filepos={}, ghost=dict(c.ghost(m)) if c.ghost else {})
+    if getattr(c, "init_attrs", None):
+        st.attrs.update(c.init_attrs(m))
     st.ghost.setdefault("io", z3.IntVal(0))
     st.ghost.setdefault("io_calls", z3.IntVal(0))
     canaries = []
@@ -193,6 +195,8 @@ def run_contract(repo, c: FnContract) -> FnResult:
                 rv = out[1] if out else NoneV()
                 n_ret += 1
                 if c.post is not None:
+                    if isinstance(rv, (BytesV,)) or type(rv).__name__ == "ListV":
+                        e.ghost["$rv"] = rv
                     goals = c.post(eng, e, rv)
                     if not isinstance(goals, list):
                         goals = [("", goals)]
